@@ -254,7 +254,7 @@ func (p *prop) Generate(rng *core.Rand, tier string, emit func(string)) {
 		emit("sched 1 L:0:1:100:1:0:0:0") // reports harness-infra
 		return
 	}
-	nPlain, nTimed, nBad, nStress := 5000, 350, 250, 40
+	nPlain, nTimed, nBad, nStress := 6000, 400, 300, 45
 	maxLen := 26
 	switch tier {
 	case "thorough":
